@@ -221,6 +221,12 @@ class IdIndex(Index):
     def to_key(self, value) -> bytes:
         return self.prefix + bytes_from_hex(value)
 
+    def scanner(
+        self, txn, matches: list, since=None, until=None, events=FakeContainer()
+    ):
+        # id keys carry no timestamp: the time window is left to the matcher
+        return super().scanner(txn, matches, events=events)
+
     def write(self, event: Event, txn, operation="put"):
         if operation == "put":
             txn.put(self.to_key(event.id), encode_event(event))
